@@ -820,6 +820,7 @@ public:
     constexpr auto replace(const_iterator first, const_iterator last, basic_inplace_string const& str)
         -> basic_inplace_string&
     {
+        assert_range_in_string(first, last);
         auto* f = to_mutable_iterator(first);
         auto* l = to_mutable_iterator(last);
         replace_impl(f, l, str.begin(), str.end());
@@ -855,6 +856,7 @@ public:
     constexpr auto replace(const_iterator first, const_iterator last, Char const* str, size_type count2)
         -> basic_inplace_string&
     {
+        assert_range_in_string(first, last);
         auto* f = to_mutable_iterator(first);
         auto* l = to_mutable_iterator(last);
         replace_impl(f, l, str, next(str, count2));
@@ -873,6 +875,7 @@ public:
 
     constexpr auto replace(const_iterator first, const_iterator last, Char const* str) -> basic_inplace_string&
     {
+        assert_range_in_string(first, last);
         auto* f = to_mutable_iterator(first);
         auto* l = to_mutable_iterator(last);
         replace_impl(f, l, str, next(str, traits_type::length(str)));
@@ -894,6 +897,7 @@ public:
     constexpr auto replace(const_iterator first, const_iterator last, size_type count2, Char ch)
         -> basic_inplace_string&
     {
+        assert_range_in_string(first, last);
         auto* f = to_mutable_iterator(first);
         auto* l = f + etl::min(count2, static_cast<size_type>(etl::distance(first, last)));
         detail::str_replace(f, l, ch);
@@ -1280,6 +1284,16 @@ private:
     {
         auto const dist = etl::distance(cbegin(), it);
         return etl::next(begin(), static_cast<etl::ptrdiff_t>(dist));
+    }
+
+    /// [first, last) has to be a range of this string: the iterator-based overloads of replace write through it
+    constexpr auto assert_range_in_string([[maybe_unused]] const_iterator first, [[maybe_unused]] const_iterator last)
+        const noexcept -> void
+    {
+        [[maybe_unused]] auto const start    = static_cast<size_type>(etl::distance(cbegin(), first));
+        [[maybe_unused]] auto const distance = static_cast<size_type>(etl::distance(first, last));
+        TETL_PRECONDITION(start <= size());
+        TETL_PRECONDITION(distance <= size() - start);
     }
 
     [[nodiscard]] constexpr auto unsafe_at(size_type index) noexcept -> reference
